@@ -103,7 +103,12 @@ inductive Val where
   | nil
   | map (l : List (Nat × Nat))
   | arr (l : List (Nat × Nat))
+  | scalar                       -- a number: not iterable (HAWK_EINROP), not deletable, but `M[k] = v` turns it into a map
 deriving Repr, DecidableEq
+
+def Val.isScalar : Val → Bool
+  | .scalar => true
+  | _ => false
 
 /-- rbt order of hawk map keys (hawk_rbt_dflcomp on the key strings: bytewise, shorter prefix first) -/
 def mapLt (a b : Nat) : Bool := decide (toString a < toString b)
@@ -117,23 +122,27 @@ def insSorted (lt : Nat → Nat → Bool) (k v : Nat) : List (Nat × Nat) → Li
 def Val.set (x : Val) (k v : Nat) : Val :=
   match x with
   | .nil => .map [(k, v)]
+  | .scalar => .map [(k, v)]
   | .map l => .map (insSorted mapLt k v l)
   | .arr l => .arr (insSorted arrLt k v l)
 
 def Val.del (x : Val) (k : Nat) : Val :=
   match x with
   | .nil => .nil
+  | .scalar => .scalar
   | .map l => .map (l.filter fun p => p.1 != k)
   | .arr l => .arr (l.filter fun p => p.1 != k)
 
 /-- `delete M`: a nil variable becomes an empty map, a map/array is emptied and keeps its kind -/
 def Val.reset : Val → Val
   | .nil => .map []
+  | .scalar => .scalar
   | .map _ => .map []
   | .arr _ => .arr []
 
 def Val.coll : Val → Coll Nat
   | .nil => .nil
+  | .scalar => .other
   | .map l => .keys (l.map Prod.fst)
   | .arr l => .keys (l.map Prod.fst)
 
@@ -157,6 +166,7 @@ inductive Stmt where
   | reset (m : Nat)              -- delete M
   | renew (m : Nat)              -- M = @nil
   | newarr (m : Nat)             -- M = hawk::array()
+  | scalar (m : Nat)             -- M = 5
   | emit (x : Nat)               -- printf "<%s>", K_x
   | brk | cont | exit | ret | skip
   | ifeq (x k : Nat) (s : Stmt)  -- if (K_x == k) s
@@ -178,9 +188,11 @@ def loopOf (x m : Nat) (body : S → S × Exit) : Loop U Nat :=
 def exec : Stmt → S → S × Exit
   | .set m k v, s => onUser (fun u => u.setVar m ((u.var m).set k v)) s
   | .setcur m x off, s => onUser (fun u => u.setVar m ((u.var m).set (u.key x + off) 1)) s
-  | .del m k, s => onUser (fun u => u.setVar m ((u.var m).del k)) s
-  | .delcur m x, s => onUser (fun u => u.setVar m ((u.var m).del (u.key x))) s
-  | .reset m, s => onUser (fun u => u.setVar m (u.var m).reset) s
+  -- delete on a variable holding a scalar is a run-time error ("not deletable"): the program is aborted
+  | .del m k, s => if (s.user.var m).isScalar then (s, .err) else onUser (fun u => u.setVar m ((u.var m).del k)) s
+  | .delcur m x, s => if (s.user.var m).isScalar then (s, .err) else onUser (fun u => u.setVar m ((u.var m).del (u.key x))) s
+  | .reset m, s => if (s.user.var m).isScalar then (s, .err) else onUser (fun u => u.setVar m (u.var m).reset) s
+  | .scalar m, s => onUser (fun u => u.setVar m .scalar) s
   | .renew m, s => onUser (fun u => u.setVar m .nil) s
   | .newarr m, s => onUser (fun u => u.setVar m (.arr [])) s
   | .emit x, s => onUser (fun u => { u with out := u.key x :: u.out }) s
